@@ -14,7 +14,7 @@ OUT=seeded/RESULTS.md
 rc=0
 for id in $IDS; do
   p=${id%%-*}
-  line=$(tools/seedrun.py seeded/$id/patch.diff $p --tier $TIER | tail -1)
+  line=$(tools/seedrun.py /verif/seeded/$id/patch.diff $p --tier $TIER | tail -1)
   res=$(echo "$line" | awk '{print $1}')
   sig=$(echo "$line" | sed -n 's/.*first: sig=//p' | cut -c1-160)
   [ "$res" != "DETECTED" ] && rc=1
